@@ -38,7 +38,8 @@ Keys:  c07:<reparse|tree-differs|sentinel|comment-leak>:<option that matters>:<d
                         clause disappear; if no single reversion does (several options are each sufficient): the first
                         option that alone, with everything else at its default, reproduces it; `combo` otherwise
   cause               = reparse: error class + description without digits / quoted text;
-                        tree-differs: first structural difference (c01.first_diff: `<Class>`, `<A>-><B>`, `<Class>.<arg>`);
+                        tree-differs: first structural difference (c01.first_diff: `<Class>`, `<A>-><B>`, `<Class>.<arg>`)
+                                      prefixed with the class of the differing node's parent in the default tree;
                         sentinel: `in-output`;  comment-leak: `token-comment` | `text`
 """
 import itertools
@@ -297,7 +298,11 @@ def evaluate(ctx, o, count=None):
             b = ctx.norm_base[sig] = normalise(ctx.base.copy(), o)
         if not (a == b):
             diff = first_diff(b, a)
-            v["tree-differs"] = (diff[0] if diff else "same-structure", "output parses to a different tree than the default single-line output", out)
+            cause = "same-structure"
+            if diff:
+                par = diff[1].parent
+                cause = (type(par).__name__ + ">" if par is not None else "") + diff[0]
+            v["tree-differs"] = (cause, "output parses to a different tree than the default single-line output", out)
     if o["pretty"] and ctx.sentinel in out:
         v["sentinel"] = ("in-output", "line-break sentinel in pretty output", out)
     if o["comments"] is False:
